@@ -116,12 +116,15 @@ CHECKS = {
             "and the pre-repair IAN copy is refuted; a limit lint's error implies its stricter companion's finding for every measured value; a mirror rule applied to equal fields gives equal answers. The other copies are tied to the code "
             "only through the pair monitor: generated SAN=IAN, issuer=subject, both-scope, boundary-validity and name-length certificates plus the corpus where a pair's precondition holds; every pair must be exercised.",
             "DESIGN.md 5/C20", "Most pair members are not modelled individually; agreement for them is explored, not proved."),
-    "C02": (True, "Coq theorems (fatal-origin for the framework; panic-freedom of 11 rule bodies / helpers modelled with explicit out-of-range outcomes) + in-Coq correspondence of those bodies + directed hostile inputs, the certificate zoo and structure-aware mutation through the three entry points",
+    "C02": (True, "Coq theorems (fatal-origin for the framework; panic-freedom of 11 rule bodies / helpers modelled with explicit out-of-range outcomes; result-type discipline of the QC-statement parser) + in-Coq correspondence of those bodies + kernel-checked inclusion of the regenerated panic-site inventory (compiler bounds-check report + go/ssa) in an audited list + directed hostile inputs, the certificate zoo and structure-aware mutation through the three entry points",
             "Proof (partial): a fatal result of a certificate lint is the body's own decision, a configuration error, or the report of a recovered panic, so panic-free lint code never yields the panic report; CRL/OCSP linting returns iff nothing panics; "
             "the explicitText control-character walker never indexes out of range for any byte string (and without its bound check it does on [0xC2], the defect that was repaired); the three GeneralizedTime lints, the three keyUsage-encoding lints, "
             "the SCT-list lint, util.GetHost, util.GetAuthority and util.ParseBMPString (Kernels/Bodies.v, every index explicit) never index out of range - the time lints under the parser's length guard, refuted without it - and agree with the real code on ~8500 directly built inputs. "
+            "Panic-site inventory (translator, regenerated every run): the bounds checks the Go compiler could not prove away in v3/lint, v3/lints and v3/util (go build -gcflags=-d=ssa/check_bce/debug=1: 65 sites today; every other index or slice expression is in range by the compiler's own proof) plus the unchecked type assertions, "
+            "explicit panics and integer divisions by a variable inside lint closures (go/ssa: 19 assertions today, keyed with whether the closure tests the same type with the comma-ok form) must each be accounted for in panic_audit.txt - modelled with a safety theorem, guarded by CheckApplies or a visible test, a parser invariant, "
+            "an inlined standard-library body, unreachable from any lint - and the kernel checks the inclusion (Obl_C02_panic_sites); util.ParseQcStatem's result-type discipline, on which six unchecked ETSI assertions rest, is modelled (Kernels.QcStatem, c02_qc_assert_safe) and compared with the code. "
             "Explored: all other rule bodies - no Coq semantics of ~365 Go bodies can be built here - by directed generation at the index/slice/type-assertion sites (hostile extension contents, name shapes) and structure-aware mutants of the corpus (30k in thorough), only inputs the parsers accept.",
-            "DESIGN.md 5/C02", "A parser that itself panics on a mutant counts as not accepting it. Coverage of risk sites is not measured (go build -cover join not built)."),
+            "DESIGN.md 5/C02", "A parser that itself panics on a mutant counts as not accepting it. The compiler's prove pass is trusted for the bounds checks it eliminates; panic_audit.txt is hand reasoning (trusted) about the ones it keeps; nil dereferences and panics raised inside dependencies (e.g. math/big) have no inventory and are covered by the sweeps only."),
 }
 
 REASON_PENDING = "check not built yet in this session; planned (see DESIGN.md section 5)"
